@@ -1,5 +1,7 @@
 """C04 — RaggedArray histories equal a list-of-arrays model and persist."""
-from .. import hist_ragged
+import random
+
+from .. import hist_ragged, hist_stale
 from ..common import Result
 
 PID = 'C04'
@@ -26,11 +28,18 @@ MONITORS = {'model'}
 
 
 def cases(tier, seed):
-    return hist_ragged.history_cases(PID, tier, seed, 250, 4000)
+    yield from hist_ragged.history_cases(PID, tier, seed, 250, 4000)
+    # histories in which the ragged array changes behind the handle (by path / second handle / re-creation)
+    yield from hist_stale.ragged_cases(random.Random(f'C04:{seed}:stale'), 250 if tier == 'quick' else 3000, seed)
 
 
 def run_case(case, env):
     res = Result()
+    if case.get('kind') == 'stale':
+        hist_stale.run_ragged(env, res, case)
+        res.sig = hist_stale.sig_of(case)
+        res.dim('start', 'stale-handle')
+        return res
     hist_ragged.run(env, res, case, MONITORS)
     res.sig = hist_ragged.sig_of(case)
     st = case['start']
